@@ -468,7 +468,7 @@ func validateDelete(
 		)
 	}
 
-	if (startPosition == endPosition-1 && *startOffset == endPtrLen && *endOffset == endPtrLen) ||
+	if (startPosition == endPosition-1 && *startOffset == startPtrLen && *endOffset == endPtrLen) ||
 		startPosition == endPosition && *startOffset+*endOffset == startPtrLen {
 		return false, nil
 	}
